@@ -88,6 +88,7 @@ func (c *c17RecCons) c17Cells() []int                   { return append([]int(ni
 func (c *c17RecCons) c17Outside() int                   { return 0 }
 func (c *c17RecCons) c17Describe(e map[string]interface{}) {
 	e["cons"] = "rec"
+	e["pw"], e["ph"], e["gw"], e["gh"], e["offy"] = int(c.w), int(c.h), 1, 1, 0
 	e["gc"], e["gi"] = []int{}, []int{}
 }
 
